@@ -274,11 +274,13 @@ Theorem C17_internal_schedules_terminate : forall v cfg db ops st,
   Forall internal ops -> (executed v cfg db st ops + measure (fst (run v cfg db st ops)) <= measure st)%nat.
 Proof. exact internal_schedules_terminate. Qed.
 
-(* at quiescence every response ever produced - of live, pruned and unregistered sessions alike -
-   has been sent *)
-Theorem C17_every_response_is_sent : forall cfg st tr,
-  fifo_inv cfg st tr -> quiescent st -> forall r, In r (enqs tr) -> In r (sents tr).
-Proof. exact every_response_is_sent. Qed.
+(* in every reachable quiescent state every response ever produced - of live, pruned and
+   unregistered sessions alike - has been sent *)
+Theorem C17_every_response_is_sent : forall v cfg db ops,
+  let st := fst (run v cfg db (init cfg) ops) in
+  let tr := snd (run v cfg db (init cfg) ops) in
+  quiescent st -> forall r, In r (enqs tr) -> In r (sents tr).
+Proof. exact every_response_is_sent_reachable. Qed.
 
 (* ... so the "exactly one done response" clause is not safety-only (stated for the sessions
    still in the table at quiescence; for pruned / unregistered sessions a done response that
